@@ -770,6 +770,59 @@ class Oracle:
         return now
 
 
+def enc_instr(ins):
+    """real instruction object -> JSON instruction of the controller model (driver op `ctl.run`)"""
+    def rg(r):
+        return [r.name.value, r.index]
+    m = ins.mnemonic
+    if m == "set":
+        return ["set"] + rg(ins.reg) + [ins.imm.value]
+    if m == "array":
+        return ["array"] + rg(ins.reg) + [ins.address.address]
+    if m == "store":
+        return ["store"] + rg(ins.reg) + [ins.entry.address.address] + rg(ins.entry.index)
+    if m in ("qalloc", "qfree"):
+        return [m] + rg(ins.reg)
+    if m == "create_epr":
+        return [m] + rg(ins.reg0) + rg(ins.reg1) + rg(ins.reg2) + rg(ins.reg3) + rg(ins.reg4)
+    if m == "recv_epr":
+        return [m] + rg(ins.reg0) + rg(ins.reg1) + rg(ins.reg2) + rg(ins.reg3)
+    if m in ("wait_all", "wait_any"):
+        return [m, ins.slice.address.address] + rg(ins.slice.start) + rg(ins.slice.stop)
+    if m == "wait_single":
+        return [m, ins.entry.address.address] + rg(ins.entry.index)
+    raise ValueError("harness: no controller-model encoding for " + m)
+
+
+def dump_full(ex, apps, addrs, sid_of, name):
+    """the complete controller state in the driver's observation format: registers, all arrays, shared
+    memory, unit modules, used set, registry, program counters"""
+    from netqasm.lang.encoding import RegisterName
+    out_apps = []
+    for a in apps:
+        if a not in ex._qubit_unit_modules:
+            out_apps.append(None)
+            continue
+        regs, shm_regs, arrays, shm_arrays = [], [], [], []
+        sm = ex._shared_memories.get(a)
+        for b in range(4):
+            g = ex._registers[a][RegisterName(b)]
+            sg = sm._registers[RegisterName(b)] if sm is not None else None
+            for i in range(16):
+                regs.append(g._register.get(i))
+                shm_regs.append(sg._register.get(i) if sg is not None else None)
+        for ad in addrs:
+            arr = ex._app_arrays[a]._arrays.get(ad)
+            arrays.append(list(arr) if arr is not None else None)
+            sarr = sm._arrays._arrays.get(ad) if sm is not None else None
+            shm_arrays.append(list(sarr) if sarr is not None else None)
+        out_apps.append({"regs": regs, "arrays": arrays, "shmRegs": shm_regs, "shmArrays": shm_arrays,
+                         "unit": list(ex._qubit_unit_modules[a])})
+    reg = sorted(k[1] for k, v in SharedMemoryManager._MEMORIES.items() if k[0] == name and v is not None)
+    return {"apps": out_apps, "used": sorted(ex._used_physical_qubit_addresses), "registry": reg,
+            "pcs": {sid: ex._program_counters.get(sid) for sid in sid_of if sid in ex._subroutines}}
+
+
 class Replayer:
     """One scenario on one real executor, driven token by token. `steps`: list of dicts {tok, acts (model
     actions), obs (canonical real state) | raised, wait (for a wait instruction: did it block)}; tokens
@@ -802,6 +855,13 @@ class Replayer:
             self.oracle.foreign_reported = True
         self.snap = self.oracle.snapshot(self.ex)
         self.stopped = False
+        # controller model (`Model/Controller.lean`): instruction-level programs + full-state comparison
+        self.full = False
+        self.cinit = [{"a": "init", "app": app, "n": n} for app, n in sc.apps.items()]
+        self.cprogs = [[enc_instr(i) for i in s.instructions] for s in self.subs]
+        self.addrs = sorted({a["addr"] for sp in sc.subs for _, a in sp.lines if "addr" in a} |
+                            {a[k] for sp in sc.subs for _, a in sp.lines for k in ("q", "res") if a.get(k) is not None} |
+                            set(range(12)))
 
     def step(self, tok):
         if self.stopped:
@@ -809,6 +869,7 @@ class Replayer:
         sc, ex = self.sc, self.ex
         gens, sid, pc, state, current = self.gens, self.sid, self.pc, self.state, self.current
         acts = []
+        cacts = []
         waited = None
         rec = {"tok": list(tok)}
         raised = None
@@ -829,6 +890,7 @@ class Replayer:
                     self.nstarted += 1
                     pc[i] = 0
                     acts.append({"a": "startsub", "sub": sid[i], "app": sp.app})
+                    cacts.append({"a": "spawn", "app": sp.app, "prog": self.cprogs[i]})
                     if not sp.lines:
                         acts.append({"a": "endsub", "sub": sid[i]})
                 else:
@@ -841,8 +903,13 @@ class Replayer:
                     if act["a"] != "nop":
                         act["sub"] = sid[i]
                     acts.append(act)
+                    cacts.append({"a": "stackfault" if rejected else "tick", "i": sid[i]})
                 try:
                     y = next(gens[i])
+                    while y not in ("pre", "wait"):
+                        # a yield point INSIDE an instruction (the reset hook of qfree): the instruction's
+                        # effect is complete; resume until the executor's next own suspension point
+                        y = next(gens[i])
                 except StopIteration:
                     y = "done"
                 except InjectedFault:
@@ -877,13 +944,19 @@ class Replayer:
                 self.uid2idx[r.uid] = self.delivered
                 self.delivered += 1
                 acts.append(r.action())
+                cacts.append(r.action())
                 ex._handle_epr_response(r.real())
             else:
                 acts.append({"a": "poll"})
+                cacts.append({"a": "poll"})
                 ex._handle_pending_epr_responses()
         except Exception as e:  # the executor raised: the schedule stops here
             raised = type(e).__name__
         rec["acts"] = acts
+        rec["cacts"] = cacts
+        if self.full:
+            rec["full"] = dump_full(ex, sorted(sc.apps), self.addrs, list(sid.values()), ex._name)
+            rec["fin"] = {sid[i]: st for i, st in state.items() if i in sid}
         if raised is not None:
             rec["raised"] = raised
             self.steps.append(rec)
@@ -1592,3 +1665,76 @@ def run_reuse_case(c):
     except Exception as e:
         out["raised"] = "%s: %s" % (type(e).__name__, e)
     return out
+
+
+
+# ---------------------------------------------------------------------- controller model (full state)
+
+
+def ctl_request(rp):
+    acts = list(rp.cinit)
+    for st in rp.steps:
+        acts += st["cacts"]
+    return {"op": "ctl.run", "okf": OK_FIELDS_K, "node": rp.ex.node_id, "pmul": 1000, "apps": sorted(rp.sc.apps),
+            "addrs": rp.addrs, "acts": acts}
+
+
+def compare_with_ctl(out, rp):
+    """full-state comparison with the controller model after every action: registers, all arrays, shared
+    memory, unit modules, used set, registry, program counters / outcomes of the subroutines, queues,
+    pending list. Returns None or the first difference."""
+    obs = out["obs"]
+    idx = len(rp.cinit) - 1
+    for n, st in enumerate(rp.steps):
+        idx += len(st["cacts"])
+        raised = st.get("raised")
+        if raised and st["tok"][0] != "s":
+            if not out["raised"] or len(obs) > idx:
+                return {"step": n, "tok": st["tok"], "code": "raises " + raised, "model": "no exception"}
+            return None
+        if idx >= len(obs):
+            return {"step": n, "tok": st["tok"], "code": "no exception", "model": "raises"}
+        if not st["cacts"]:
+            continue
+        o = obs[idx]
+        full = st.get("full")
+        if full is None:
+            continue
+        if raised:
+            # an instruction raised: the model records the fault (class and line) in the subroutine
+            fins = [sb["fin"] for sb in o["subs"] if isinstance(sb["fin"], dict)]
+            if not any(f["cls"] == raised for f in fins):
+                return {"step": n, "tok": st["tok"], "code": "instruction raises " + raised,
+                        "model": "subroutine outcomes %s" % [sb["fin"] for sb in o["subs"]]}
+        m_apps = o["apps"]
+        if m_apps != full["apps"]:
+            for a, (x, y) in enumerate(zip(m_apps, full["apps"])):
+                if x != y:
+                    keys = [k for k in (x or {}) if (y or {}).get(k) != x.get(k)] if x and y else ["app"]
+                    return {"step": n, "tok": st["tok"], "what": "application %d differs in %s" % (a, keys),
+                            "model": {k: x[k] for k in keys} if x and y else x,
+                            "code": {k: y[k] for k in keys} if x and y else y}
+        for k in ("used", "registry"):
+            if o[k] != full[k]:
+                return {"step": n, "tok": st["tok"], "what": k, "model": o[k], "code": full[k]}
+        for sidx, pc in full["pcs"].items():
+            msb = o["subs"][sidx]
+            if pc is not None and msb["fin"] != "halted" and msb["pc"] != pc:
+                return {"step": n, "tok": st["tok"], "what": "program counter of subroutine %d" % sidx,
+                        "model": msb["pc"], "code": pc}
+        for sidx, stt in st["fin"].items():
+            mf = o["subs"][sidx]["fin"]
+            want = "halted" if stt == "done" else ("fault" if stt == "dead" else None)
+            got = "halted" if mf == "halted" else ("fault" if isinstance(mf, dict) else None)
+            if not raised and want != got:
+                return {"step": n, "tok": st["tok"], "what": "outcome of subroutine %d" % sidx, "model": mf,
+                        "code": stt}
+        cm = canon_model({"apps": [], "used": [], "queues": o["queues"], "pending": o["pending"], "subs": []})
+        if cm["queues"] != st.get("obs", {}).get("queues", cm["queues"]) or \
+                cm["pending"] != st.get("obs", {}).get("pending", cm["pending"]):
+            return {"step": n, "tok": st["tok"], "what": "queues / pending",
+                    "model": repr([cm["queues"], cm["pending"]])[:1200],
+                    "code": repr([st["obs"]["queues"], st["obs"]["pending"]])[:1200]}
+        if raised:
+            return None
+    return None
